@@ -1,3 +1,4 @@
 # source this: offline Go environment for the harness
 export GOFLAGS=-mod=mod GOPROXY=off GOSUMDB=off GOTOOLCHAIN=local
 export PATH=/opt/veriftools/go1.26.8/bin:$PATH
+export GODEBUG=cryptocustomrand=0
